@@ -13,7 +13,7 @@ from vlib.runner import mkres
 
 ID = 'C04'
 MS, MC = 'kex-strict-s-v00@openssh.com', 'kex-strict-c-v00@openssh.com'
-TW = 'vulnerable to the Terrapin attack'
+TW = 'Terrapin'          # any note on an algorithm line that mentions Terrapin is the Terrapin warning, whatever its exact wording
 NOTE_RX = re.compile(r'vulnerable SSH channels with this target: (.*?)\.  If any CBC')
 UNKNOWN = {'chacha': ['chacha20-poly1305@example.com', 'chacha20-poly1305-v2@openssh.com'], 'cbc': ['foo256-cbc', 'bar-cbc@example.com', 'kuznyechik-cbc'], 'etm': ['hmac-foo-etm@openssh.com', 'umac-256-etm@openssh.com']}
 
@@ -104,8 +104,8 @@ def eval_case(case):
             finds = tr.findings()
             notes = [n for n in tr.nfo if 'strict key exchange' in n]
             adds = [(cat, name) for sign, name, cat, action, _ in tr.rec if sign == '+']
-        warned = {(cat, name) for cat, name, sev, text in finds if TW in text}
-        sev_bad = [(cat, name, sev) for cat, name, sev, text in finds if TW in text and sev != 'warn']
+        warned = {(cat, name) for cat, name, sev, text in finds if TW in text and 'pseudo-algorithm' not in text}
+        sev_bad = [(cat, name, sev) for cat, name, sev, text in finds if TW in text and 'pseudo-algorithm' not in text and sev != 'warn']
         want = {('enc' if x in case['enc'] and (refmodel.is_chacha(x) or refmodel.is_cbc(x)) else 'mac', x) for x in vs} if exposed else set()
         missing, extra = want - warned, warned - want
         if extra:
